@@ -84,10 +84,15 @@ func touchesPeerData(f *ssa.Function) string {
 }
 
 func checkC15(p *load.Program, r *kit.Report) {
+	importRules(p, r, "C06", "a map written without its write lock while other goroutines use it aborts the process (fatal error: concurrent map writes), which no recover contains", 1,
+		func(o *kit.Obligation) bool {
+			return strings.HasSuffix(o.Construct, ":txs") || strings.Contains(o.Construct, ":txs#")
+		}, "LOCKSET")
 	r.NotDecided = "absence of every panic (index, nil, conversion) on every byte string — a sound analysis for that drowns in unprovable-but-safe bounds checks; containment is decided instead: with it a residual panic costs one connection, which the property allows. Runtime fatal errors other than unlock-of-unlocked-mutex and oversized allocation; memory exhaustion by many small allocations."
 	r.Rule("GO-RECOVER", "every goroutine started in the two packages whose body runs a message handler or decodes peer bytes defers a function that calls recover(); the thread objects of tokenized/threads recover in their own goroutines (re-derived from the dependency source)", 4)
 	r.Rule("ALLOC-BOUND", "an integer decoded from the connection (header.Length, ReadVarInt results, binary.Read targets, and what is computed from them, followed into callees) never sizes make/Grow unless a dominating test bounds it by a constant ≤ 2³¹ or by the length of data already received", 1)
 	r.Rule("LOCK-BALANCE", "every explicit Unlock/RUnlock in the two packages is executed with that lock held on every path reaching it (unlock of an unlocked mutex is a fatal error no recover can contain)", 60)
+	r.Rule("CLOSE-BEFORE-WAIT", "the waiting buffer that feeds the alternate header handler is closed before that handler's thread is waited for (otherwise a connection that ends inside a headers message leaves the handler, and with it Run, blocked for ever)", 2)
 	r.Rule("DEP-INDEX", "header.Bits is size-checked before it can reach bitcoin.ConvertToDifficulty's unguarded index (shared with C02)", 3)
 	r.Rule("CONSUME", "pre-handshake and verification-stage handlers consume what they skip (shared with C14), so garbage is rejected by the next header's magic test instead of desynchronising", 6)
 	r.Rule("FRAME-HELPERS", "foreign magic is rejected before anything else is read; every handler error ends the read loop (connection closed, Run returns)", 3)
@@ -268,6 +273,7 @@ func checkC15(p *load.Program, r *kit.Report) {
 	for f := range sub.Analysed {
 		r.Fn(f)
 	}
+	checkCloseBeforeWait(p, r, "CLOSE-BEFORE-WAIT")
 	// blocking sends keep Run from returning
 	fns, _ := allHandlers(p)
 	r.Rule("BLOCKING-OP", "no handler blocks for ever on a node channel field (a blocked handler keeps Run from returning after the connection closes)", 1)
